@@ -17,6 +17,8 @@ func init() {
 	commands["health-run"] = cmdHealthRun
 	commands["bytes-run"] = cmdBytesRun
 	commands["exterr-run"] = cmdExtErrRun
+	commands["conc-run"] = cmdConcRun
+	commands["pools-run"] = cmdPoolsRun
 	commands["health-walks"] = cmdHealthWalks
 }
 
